@@ -3,8 +3,10 @@ import random
 import vlib
 import corr
 
-KEYS = ["zone", "tier", "rack", "in", "notin", "example.com/zone", "a.b/c", "x", "node.kubernetes.io/instance-type", "exists"]
-VALS = ["a", "b", "c", "in", "notin", "1", "5", "10", "-3", "007", "x-y", "v1.2", "EMPTY", "9223372036854775807", "abc"]
+KEYS = ["zone", "tier", "rack", "in", "notin", "example.com/zone", "a.b/c", "x", "node.kubernetes.io/instance-type", "exists",
+        "In", "NotIn", "Exists", "DoesNotExist", "gt", "lt", "a_b", "A.b-c/d_e", "0", "k8s.io/in", "notin.io/notin"]
+VALS = ["a", "b", "c", "in", "notin", "1", "5", "10", "-3", "007", "x-y", "v1.2", "EMPTY", "9223372036854775807", "abc",
+        "A_b", "0", "a.b", "x" * 63, "notin_", "in-x", "In", "exists", "1e3", "0x10", "+5", "9223372036854775808"]
 OPS = ["In", "NotIn", "Exists", "DoesNotExist", "Gt", "Lt"]
 
 
